@@ -21,6 +21,9 @@ def run(chk, replay=None):
     scen, fam = 0, []
     for seq in rrlib.gen_seqs(chk, pslib.SUBSYNC_OPS, 6 if thorough else 5, ["check", "fail1"], "subsync"):
         scen += 1; fam.append(pslib.c13_script(seq, scen))
+    for seq in rrlib.gen_seqs(chk, pslib.SUBSYNC_REJOIN_OPS, 6 if thorough else 5, ["check", "rejoin1"], "subrejoin"):
+        if "rejoin1" in seq:
+            scen += 1; fam.append(pslib.c13_script(seq, scen))
     for i in range(3000 if thorough else 400):
         scen += 1; fam.append(pslib.random_c13(rng, scen))
     for s in fam: chk.case(json.dumps(s["ops"])[:2000], nontrivial=any(o["op"] in ("sub", "unsub") for o in s["ops"]))
